@@ -46,6 +46,83 @@ def legacy_cases():
     return cs
 
 
+def v2_batch(records, base_offset=0):
+    from aiokafka.record.default_records import _DefaultRecordBatchBuilderPy
+    b = _DefaultRecordBatchBuilderPy(magic=2, compression_type=0, is_transactional=0, producer_id=-1, producer_epoch=-1,
+                                     base_sequence=-1, batch_size=1 << 20)
+    for i, (k, v) in enumerate(records):
+        b.append(i, 1000 + i, k, v, [])
+    raw = bytearray(b.build())
+    raw[0:8] = struct.pack(">q", base_offset)
+    return bytes(raw)
+
+
+def default_cases():
+    good = v2_batch([(b"k", b"v" * 5)])
+    cs = [("v2 well-formed", 2, good)]
+    # a buffer shorter than the 61-byte v2 header
+    for n in (17, 26, 40, 60):
+        cs.append(("v2 buffer of %d bytes (shorter than the header)" % n, 2, good[:n]))
+    # a varint whose continuation bits run to the very end of the buffer
+    cs.append(("v2 record length varint runs to the end of the buffer", 2, good[:61] + bytes([0xff, 0xff, 0xff])))
+    cs.append(("v2 truncated after the record's key length", 2, good[:66]))
+    def zz(n):
+        v = (n << 1) ^ (n >> 63)
+        out = bytearray()
+        while v & ~0x7f:
+            out.append((v & 0x7f) | 0x80)
+            v >>= 7
+        out.append(v)
+        return bytes(out)
+    for klen in (2 ** 62, 2 ** 63 - 1, 2 ** 63 - 70, 2 ** 31):
+        rec = b"\x00" + zz(0) + zz(0) + zz(klen) + b"kk"
+        cs.append(("v2 record with key length %d" % klen, 2, good[:61] + zz(len(rec)) + rec))
+    bad_count = bytearray(good)
+    bad_count[57:61] = struct.pack(">i", 3)                      # claims 3 records, holds 1
+    cs.append(("v2 record count larger than the records present", 2, bytes(bad_count)))
+    return cs
+
+
+def memory_cases():
+    v2 = v2_batch([(b"k", b"v")])
+    v0 = legacy_msg(0, b"k", b"v")
+    v1 = legacy_msg(1, b"k", b"v")
+    cs = [("memory: v2 + v0 + v1 concatenated", None, v2 + v0 + v1),
+          ("memory: v1 + v2 concatenated", None, v1 + v2),
+          ("memory: v2 followed by a 26-byte entry claiming magic 2", None, v2 + struct.pack(">qi", 7, 14) + bytes([0, 0, 0, 0, 2]) + bytes(9)),
+          ("memory: trailing partial entry", None, v2 + v0[:20])]
+    return cs
+
+
+def decode_all(impl, data):
+    """-> list of (offset, key, value) per record over all batches, or the exception class name"""
+    if impl == "c":
+        from aiokafka.record._crecords.memory_records import MemoryRecords
+    else:
+        from aiokafka.record.memory_records import _MemoryRecordsPy as MemoryRecords
+    out = []
+    try:
+        m = MemoryRecords(bytes(data))
+        while True:
+            b = m.next_batch()
+            if b is None:
+                break
+            for r in b:
+                out.append((r.offset, r.key, r.value))
+    except (SystemError, MemoryError):
+        raise
+    except Exception as e:
+        out.append("raised " + type(e).__name__)
+    return out
+
+
+def exact_block(data):
+    """the bytes in a heap block of exactly their length (bytes / bytearray objects carry a trailing NUL that would hide
+    a one-byte over-read)"""
+    import array
+    return array.array("b", [x - 256 if x > 127 else x for x in data])
+
+
 def run_case(kind, magic, data):
     """decode fully; -> None or a problem string (internal errors only; clean exceptions are fine)"""
     from aiokafka.errors import CorruptRecordException
@@ -57,18 +134,13 @@ def run_case(kind, magic, data):
                 pass
         elif kind == "default":
             from aiokafka.record._crecords.default_records import DefaultRecordBatch
-            b = DefaultRecordBatch(bytes(bytearray(data)))
+            b = DefaultRecordBatch(exact_block(data))
             for _ in b:
                 pass
         else:
-            from aiokafka.record._crecords.memory_records import MemoryRecords
-            m = MemoryRecords(bytes(bytearray(data)))
-            while True:
-                b = m.next_batch()
-                if b is None:
-                    break
-                for _ in b:
-                    pass
+            c, p = decode_all("c", data), decode_all("py", data)
+            if c != p:
+                return "compiled and pure-Python decoders disagree: compiled %r, python %r" % (c[:6], p[:6])
     except (SystemError, MemoryError) as e:
         return "raised %s: %s" % (type(e).__name__, e)
     except Exception:
@@ -76,7 +148,7 @@ def run_case(kind, magic, data):
     return None
 
 
-CASES = {"legacy": legacy_cases}
+CASES = {"legacy": legacy_cases, "default": default_cases, "memory": memory_cases}
 
 
 def child(which, only=None):
